@@ -205,9 +205,18 @@ impl TlsPeer {
 
     fn send_app(&mut self, msgs: Vec<Vec<u8>>) {
         if let Tls::Up(s) = &mut self.tls {
+            let cap = self.srv.p.tls_record_cap;
             for m in msgs {
-                // one TLS record per message
-                let _ = s.write_all(&m);
+                if cap == 0 || m.first() == Some(&0x30) {
+                    // one TLS record per message (always for CredSSP messages, which rdp-rs takes from a single read
+                    // of the decrypted stream: how a TSRequest may be cut is not part of any listed property)
+                    let _ = s.write_all(&m);
+                } else {
+                    // one TLS record per piece (each write call of the TLS provider closes a record)
+                    for piece in m.chunks(cap) {
+                        let _ = s.write_all(piece);
+                    }
+                }
             }
         }
     }
